@@ -19,7 +19,7 @@ META = dict(
               'random source is replaced by symbolic permutations / choices; verdict "Confirmed over all paths" required. '
               '_get_final_crystal_lattices runs on the symreal path-forking executor (E3) with symbolic torsion/Laplacian scores',
     bounds=dict(quick='RTL: 3 inputs (every increasing/unconstrained mix, grouped input) into 2 lattices of rank 2 and 1 of rank 3; '
-                      'random ensemble: 3-4 features into 2x2 / 2x3; pairs cover: 3-4 features, rank 2-3; Crystals: 3 features into '
+                      'random ensemble: 3-4 features into 2x2 / 2x3; pairs cover: 3-4 features, rank 2-3 (any order), 5 features rank 4 and 6 features rank 5 (first two pairs arbitrary, rest ascending; first three in the thorough tier); Crystals: 3 features into '
                       '2 lattices of rank 2 (symbolic scores)', thorough='RTL 4 inputs 2x2, 3 inputs 3x2; random 4 features 3x2; '
                       'Crystals 4 features 2x3 / 3x2'),
     outside=['feature counts / ranks beyond the bounds', 'the numpy Mersenne-Twister itself (replaced by "some permutation / some element")',
@@ -169,7 +169,7 @@ def cases(tier, seed):
   from vf.e2 import c17_harness as h
   out = []
   for f in h.CHECKS_QUICK:
-    hard = f in ('check_cover_4f_rank2', 'check_cover_4f_rank3')
+    hard = f in ('check_cover_4f_rank2', 'check_cover_4f_rank3', 'check_cover_5f_rank4_head2', 'check_cover_6f_rank5_head2')
     out.append(dict(name=f, fn='case_crosshair', params=dict(name=f, func=f, timeout=150 if hard else 90, required=not hard),
                     cap=900, required=not hard))
   for f in h.TWINS:
